@@ -206,8 +206,50 @@ def case_decompress_inplace(ctx, fault):
             ctx.oblige("reader_points_to_bin", str(sr.file_bin) == BASE + ".bin")
 
 
+def case_decompress_inplace_retry(ctx, fault):
+    """history: an in-place decompression is interrupted at operation `fault` (mtscomp writes straight under the final
+    .bin name, so a partial .bin may stay behind), then the same call is retried from a fresh Reader"""
+    import spikeglx
+    keep = bool(ctx.bool("keep_original"))
+    F, raw = _install(False, True)
+    sr = ctx.call("open", spikeglx.Reader, FakePath(BASE + ".cbin"))
+    n0 = F.nops
+    F.fault_at = n0 + fault
+    raised = None
+    try:
+        sr.decompress_file(keep_original=keep)
+    except InjectedFault as e:
+        raised = e
+    except Exception as e:  # noqa
+        ctx.oblige("decompress_no_unexpected_exception", False, detail={"exception": repr(e)})
+        return
+    F.fault_at = None
+    if raised is None or not bool(F.get(BASE + ".cbin").exists):
+        return              # the first call completed (the fault index lies beyond its last operation): single-call cases cover it
+    try:
+        sr.close()
+    except Exception:  # noqa
+        pass
+    sr2 = ctx.call("reopen", spikeglx.Reader, FakePath(BASE + ".cbin"))
+    retry_raised = None
+    try:
+        out = sr2.decompress_file(keep_original=keep)
+    except Exception as e:  # noqa   (refusing to overwrite the partial output is a legitimate answer)
+        retry_raised = e
+    src = F.get(BASE + ".cbin")
+    dst = F.get(BASE + ".bin")
+    complete = dst is not None and bool(dst.exists) and isinstance(dst.content, LArr)
+    src_gone = (not bool(src.exists)) or (not bool(F.get(BASE + ".ch").exists))
+    ctx.oblige("retry_removes_compressed_source_only_after_replacement_complete", (not src_gone) or complete,
+               detail={"fault": fault, "keep": keep, "retry_raised": repr(retry_raised)})
+    if retry_raised is None:
+        ctx.oblige("retry_returns_complete_bin", complete, detail={"fault": fault, "keep": keep})
+
+
 def cases(tier):
     cs = [Case("entry_points", "case_entry_points", {})]
+    for k in ([1, 2, 3] if tier == "quick" else [0, 1, 2, 3, 4, 5, 6]):
+        cs.append(Case(f"inplace_retry_fault{k}", "case_decompress_inplace_retry", {"fault": k}))
     for k in [None] + bounds(tier)["faults"]:
         cs.append(Case(f"compress_fault{k}", "case_compress", {"fault": k}))
         cs.append(Case(f"scratch_fault{k}", "case_decompress_scratch", {"fault": k, "scratch": False}))
@@ -227,6 +269,9 @@ def twins(tier):
         Twin("scratch_writes_in_place", m, "out=bin_file.with_suffix('.bin_temp')", "out=bin_file", scr),
         Twin("inplace_unlink_first", m, "        assert self.is_mtscomp\n        r = mtscomp.decompress(", "        assert self.is_mtscomp\n        if not keep_original:\n            self.file_bin.with_suffix(\".ch\").unlink()\n        r = mtscomp.decompress(",
              [f"inplace_fault{k}" for k in [None, 0, 1, 2, 3, 4, 5]]),
+        Twin("inplace_trusts_existing_output", m, "        assert self.is_mtscomp\n        r = mtscomp.decompress(\n            self.file_bin, self.file_bin.with_suffix(\".ch\"), **kwargs\n        )\n        r.close()",
+             "        assert self.is_mtscomp\n        if not Path(kwargs[\"out\"]).exists():\n            r = mtscomp.decompress(\n                self.file_bin, self.file_bin.with_suffix(\".ch\"), **kwargs\n            )\n            r.close()",
+             [f"inplace_retry_fault{k}" for k in range(0, 7)]),
         Twin("meta_entry_prefers_nothing", m, '                if sglx_file.with_suffix(".cbin").exists()', '                if sglx_file.with_suffix(".cbin_x").exists()', ["entry_points"]),
         Twin("rename_skipped_when_kept", m, "        file_tmp.rename(file_out)\n        if not keep_original:", "        if not keep_original:\n            file_tmp.rename(file_out)\n        if not keep_original:", comp),
     ]
@@ -339,6 +384,41 @@ if final.exists() and not (final.stat().st_size == data.nbytes and np.array_equa
 if not (d / 'x.imec0.ap.cbin').exists() or not (d / 'x.imec0.ap.ch').exists(): bad.append('compressed source removed')
 if raised is None and not final.exists(): bad.append('no output after normal return')
 print('raised', raised, bad)
+if bad: reproduced(str(bad))
+not_reproduced()
+"""
+    if case.startswith("inplace_retry"):
+        return common + f"""
+keep, fault = {bool(m.get('keep_original'))}, {fault!r}
+mk_cbin()
+sr = spikeglx.Reader(d / 'x.imec0.ap.cbin')
+import mtscomp as M
+orig = M.Reader.tofile
+def failing(self, out, overwrite=False):
+    if pathlib.Path(out).exists() and not overwrite: raise ValueError('exists')
+    with open(out, 'wb') as f: f.write(b'partial')
+    raise Boom('injected')
+M.Reader.tofile = failing
+try:
+    sr.decompress_file(keep_original=keep)
+except Boom as e:
+    pass
+finally:
+    M.Reader.tofile = orig
+try: sr.close()
+except Exception: pass
+retry = None
+try:
+    sr2 = spikeglx.Reader(d / 'x.imec0.ap.cbin'); sr2.decompress_file(keep_original=keep)
+except Exception as e:
+    retry = e
+b = d / 'x.imec0.ap.bin'
+complete = b.exists() and b.stat().st_size == data.nbytes and np.array_equal(np.fromfile(b, dtype=np.int16).reshape(ns, nc), data)
+gone = not (d / 'x.imec0.ap.cbin').exists() or not (d / 'x.imec0.ap.ch').exists()
+bad = []
+if gone and not complete: bad.append('retry removed the compressed source although the replacement is incomplete')
+if retry is None and not complete: bad.append('retry returned normally without a complete bin')
+print('retry raised', repr(retry), bad)
 if bad: reproduced(str(bad))
 not_reproduced()
 """
